@@ -12,6 +12,8 @@ mod engine;
 mod factory;
 mod groups_gen;
 mod layout;
+mod plugin;
+mod plugin_gen;
 mod world;
 
 #[cfg(not(miri))]
